@@ -465,7 +465,15 @@ def fn(name, arg):
             r = _rational_sqrt(c)
             if r is not None:
                 return const(r)
-        # sqrt of a perfect square monomial x^2 -> abs(x)
+        # rational content out of the radicand: sqrt(c * P) = sqrt(c) * sqrt(P), so that
+        # proportional radicands share one atom
+        cont = _content(arg.num)
+        if cont is not None and cont != 1:
+            inner = arg / const(cont)
+            r = _rational_sqrt(cont)
+            if r is not None:
+                return const(r) * _fn_atom("sqrt", inner)
+            return _fn_atom("sqrt", const(cont)) * _fn_atom("sqrt", inner)
         return _fn_atom("sqrt", arg)
     if name == "abs":
         c = arg.const_value()
@@ -495,6 +503,21 @@ def fn(name, arg):
             return arg
         return _fn_atom("pos", arg)
     return _fn_atom(name, arg)
+
+
+def _content(poly):
+    """positive rational content of a polynomial with several terms (None for constants
+    and single monomials, which are handled by their own rules)"""
+    from math import gcd
+    if len(poly) < 2:
+        return None
+    num, den = 0, 1
+    for c in poly.values():
+        num = gcd(num, abs(c.numerator))
+        den = den * c.denominator // gcd(den, c.denominator)
+    if num == 0:
+        return None
+    return Fraction(num, den)
 
 
 def _obviously_nonneg(arg):
